@@ -103,7 +103,10 @@ fn claim_message(e: &Env, issuer: &Address, identity: &Address, topic: u32, nonc
     m
 }
 
-fn history(cfg: &Cfg, rep: &mut Report, h: u64, steps: usize) {
+/// `e2e`: C04's use of this engine - an RWA token wired to the real identity verifier is probed
+/// (mint, transfer) after every step against the same iff-oracle; C15's own monitors are muted by
+/// the caller in that mode.
+pub fn history(cfg: &Cfg, rep: &mut Report, h: u64, steps: usize, e2e: bool) {
     let mut rng = Rng::for_history(cfg.seed, "C15", cfg.shard, h);
     rep.begin_history(h);
     let w = World::new(100, 16);
@@ -118,6 +121,13 @@ fn history(cfg: &Cfg, rep: &mut Report, h: u64, steps: usize) {
     let nid = 3;
     let identities: Vec<Address> = (0..nid).map(|_| e.register(IdentityC, ())).collect();
     let accounts = w.accounts(nid + 1); // the last account has no identity
+    let token: Option<Address> = if e2e {
+        let comp = e.register(crate::contracts::rwa::MockCompliance, ());
+        Some(e.register(crate::contracts::rwa::RwaTok, (comp, verifier.clone())))
+    } else {
+        None
+    };
+    let mut tbal: Vec<i128> = vec![0; nid + 1];
     let countries: SVec<CountryData> = SVec::from_array(e, [CountryData { country: CountryRelation::Individual(IndividualCountryRelation::Residence(840)), metadata: None }]);
     for i in 0..nid {
         invoke::<()>(e, &irs, "add_identity", args!(e, accounts[i], identities[i], IdentityType::Individual, countries.clone())).expect("add_identity");
@@ -352,6 +362,7 @@ fn history(cfg: &Cfg, rep: &mut Report, h: u64, steps: usize) {
                 });
             }
         }
+        let mut verdicts: Vec<bool> = vec![];
         for a in 0..accounts.len() {
             let r: Result<(), Fail> = invoke(e, &verifier, "verify_identity", args!(e, accounts[a]));
             rep.evaluations += 1;
@@ -378,6 +389,51 @@ fn history(cfg: &Cfg, rep: &mut Report, h: u64, steps: usize) {
             } else {
                 rep.check("verify", !want, "C15/verify/verify_identity/refused-although-every-topic-is-covered", || format!("verify_identity(account {a}) refused ({r:?}) although every required topic {reg:?} has a valid claim from a trusted issuer"));
             }
+            verdicts.push(want);
+        }
+        // ---------------- C04 end to end: the token's identity gate against the same oracle ----------------
+        if let Some(tok) = &token {
+            for a in 0..accounts.len() {
+                if verdicts[a] || rng.chance(1, 2) {
+                    let r: Result<(), Fail> = invoke(e, tok, "mint", args!(e, accounts[a], 3i128));
+                    rep.evaluations += 1;
+                    rep.op(format!("[{step}] token.mint(account {a}, 3) with oracle verified={} -> {}", verdicts[a], tag(&r)));
+                    rep.case(format!("real-identity/mint/verified={}/{}", verdicts[a], tag(&r)));
+                    if r.is_ok() {
+                        tbal[a] += 3;
+                        rep.count("e2e_mint_ok");
+                        rep.check("gate", verdicts[a], "C04/gate/real-identity/mint/passed-with-unverified-recipient", || format!("mint to account {a} passed at step {step} although its identity is not verified: required topics and trusted issuers {reg:?}, held claims {:?}", held.keys().filter(|k| k.0 == a).collect::<Vec<_>>()));
+                    } else {
+                        rep.check("ref", !verdicts[a], "C04/ref/real-identity/mint/refused-although-verified", || format!("mint to verified account {a} refused at step {step}: {r:?}"));
+                    }
+                }
+            }
+            for _ in 0..3 {
+                let (mut a, mut b) = (rng.idx(accounts.len()), rng.idx(accounts.len()));
+                // verified pairs are rare: prefer one when it exists, so that the gate is also seen open
+                let ver: Vec<usize> = (0..accounts.len()).filter(|i| verdicts[*i]).collect();
+                if ver.len() >= 2 && rng.chance(2, 3) {
+                    a = *rng.pick(&ver);
+                    b = *rng.pick(&ver);
+                }
+                if a == b || tbal[a] < 1 {
+                    continue;
+                }
+                let r: Result<(), Fail> = invoke(e, tok, "transfer", args!(e, accounts[a], accounts[b], 1i128));
+                rep.evaluations += 1;
+                let both = verdicts[a] && verdicts[b];
+                rep.op(format!("[{step}] token.transfer({a} -> {b}, 1) with oracle verified=({}, {}) -> {}", verdicts[a], verdicts[b], tag(&r)));
+                rep.case(format!("real-identity/transfer/from={}/to={}/{}", verdicts[a], verdicts[b], tag(&r)));
+                if r.is_ok() {
+                    tbal[a] -= 1;
+                    tbal[b] += 1;
+                    rep.count("e2e_transfer_ok");
+                    rep.check("gate", both, "C04/gate/real-identity/transfer/passed-with-unverified-party", || format!("transfer {a} -> {b} passed at step {step} with verified=({}, {}): required topics and trusted issuers {reg:?}", verdicts[a], verdicts[b]));
+                } else {
+                    rep.count("e2e_transfer_refused");
+                    rep.check("ref", !both, "C04/ref/real-identity/transfer/refused-although-both-verified", || format!("transfer {a} -> {b} between verified accounts refused at step {step}: {r:?}"));
+                }
+            }
         }
     }
     rep.end_history();
@@ -389,7 +445,7 @@ pub fn run(cfg: &Cfg, rep: &mut Report) {
     let steps = cfg.pick(120usize, 250);
     for k in 0..nh {
         if cfg.runs(k) {
-            history(cfg, rep, k, steps);
+            history(cfg, rep, k, steps, false);
         }
     }
     rep.floor_on("claims_added", 100, &["add_claim:ok"]);
